@@ -12,8 +12,8 @@ def sh(cmd, cwd, env=None, timeout=900):
 
 def main():
     only = sys.argv[1:] 
-    for out in sorted(glob.glob('/tmp/seed/C*-out')) + sorted(glob.glob('/tmp/seed/C*-out2')) + sorted(glob.glob('/tmp/seed/C*-out3')):
-        off = 2 if out.endswith('-out2') else 4 if out.endswith('-out3') else 0
+    for out in sorted(glob.glob('/tmp/seed/C*-out')) + sorted(glob.glob('/tmp/seed/C*-out2')) + sorted(glob.glob('/tmp/seed/C*-out3')) + sorted(glob.glob('/tmp/seed/C*-out4')):
+        off = 2 if out.endswith('-out2') else 4 if out.endswith('-out3') else 6 if out.endswith('-out4') else 0
         pid = os.path.basename(out)[:3]
         wt = '/tmp/seed/' + pid
         for n in (1, 2):
@@ -35,8 +35,17 @@ def main():
             rc_t, o_t = sh('go test -count=1 ./...', wt)
             # demonstration
             env = dict(ENV)
-            m = re.search(r'GODEBUG=(\S+)', cmd.split('#')[0])
-            if m: env['GODEBUG'] = m.group(1)
+            extra_env = {}
+            for seg in cmd.split('&&'):
+                if re.search(r'\bgo (test|run|build)\b', seg):
+                    for tok in seg.strip().split():
+                        if tok == 'go':
+                            break
+                        m2 = re.match(r'^([A-Z][A-Z0-9_]*)=(\S+)$', tok)
+                        if m2 and m2.group(1) in ('GODEBUG', 'GOARCH', 'GOAMD64', 'GOMAXPROCS'):
+                            extra_env[m2.group(1)] = m2.group(2)
+            env.update(extra_env)
+            cpu = re.search(r'-cpu[ =](\S+)', cmd)
             if os.path.isdir(f'{out}/demo{n}'):
                 shutil.copytree(f'{out}/demo{n}', f'{wt}/zzseeddemo', dirs_exist_ok=True)
                 if 'go run' not in cmd and 'go test' in cmd:
@@ -50,7 +59,7 @@ def main():
                 run = re.search(r"-run '?\"?([^'\" ]+)", cmd).group(1)
                 shutil.copy(f'{out}/demo{n}_test.go', f'{wt}/{pkg}/zz_seed_demo_test.go')
                 race = '-race' if re.search(r'go test [^#]*-race', cmd) else ''
-                demo = f"go test {race} -count=1 {'-tags '+tags.group(1) if tags else ''} -run '{run}' {pkg}/"
+                demo = f"go test {race} -count=1 {'-cpu '+cpu.group(1) if cpu else ''} {'-tags '+tags.group(1) if tags else ''} -run '{run}' {pkg}/"
                 demofile = f'demo{n}_test.go'
             rc_with, o_with = sh(demo, wt, env)
             sh('git checkout -- .', wt)
@@ -73,7 +82,7 @@ def main():
             meta_out = {
                 'property': pid, 'summary': meta.get('summary'), 'needs': meta.get('needs'), 'files': meta.get('files'),
                 'origin': 'fresh sub-agent given only the property text and its own scratch worktree',
-                'demonstration': {'file': 'demo/' if os.path.isdir(f'{out}/demo{n}') else 'demo_test.go', 'command_run': demo, 'env': {k: env[k] for k in ('GODEBUG',) if k in env}},
+                'demonstration': {'file': 'demo/' if os.path.isdir(f'{out}/demo{n}') else 'demo_test.go', 'command_run': demo, 'env': extra_env},
                 'confirmed': {'patch_applies': True, 'go_build': 'ok', 'go_test_all_packages_with_patch': 'ok', 'demo_with_patch': 'FAIL (exit %d)' % rc_with, 'demo_without_patch': 'PASS',
                               'demo_failure_excerpt': [l for l in o_with.splitlines() if 'FAIL' in l or 'LEAK' in l or 'demo' in l.lower()][:3]},
                 'checks': old.get('checks', {}),
